@@ -1,4 +1,5 @@
 """Rule templates T1..T12 (DESIGN.md section 3) as reusable functions over mir.Body."""
+import os
 from mir import op_place, place_str, op_str, TRACE_MACROS
 from core import path_descr
 
@@ -202,8 +203,21 @@ def t2_all_exits(body, starts, pass_blocks, exits=None, removed_edges=(), also_r
     if exits is None:
         exits = body.return_blocks()
     pass_blocks = set(pass_blocks) | set(also_removed)
-    starts = [s for s in starts if s is not None]
-    return body.find_path(starts, exits, removed_blocks=pass_blocks, removed_edges=removed_edges)
+    # a start may be given as an edge (a, b): the search starts at b, and the path-sensitive second opinion knows
+    # what taking that edge decides (the arm of a switch)
+    start_edges = [s for s in starts if isinstance(s, tuple)]
+    starts = [s[1] if isinstance(s, tuple) else s for s in starts if s is not None]
+    bad = body.find_path(starts, exits, removed_blocks=pass_blocks, removed_edges=removed_edges)
+    if bad is not None and not os.environ.get("VERIF_NO_PATHSENS"):
+        # second opinion: is there an avoiding path that no decided test refutes? (pathsens.py)
+        import pathsens
+
+        ps = pathsens.find_feasible_path(body, [s for s in starts if s not in {e[1] for e in start_edges}] + start_edges, exits, removed_blocks=pass_blocks, removed_edges=removed_edges)
+        if ps is None:
+            return None
+        if isinstance(ps, list):
+            return ps
+    return bad
 
 
 # ------------------------------------------------------------------------------------------
@@ -1012,5 +1026,53 @@ def refers_to_local(body, op, l, depth=0):
                 if refers_to_local(body, {"c": {"l": rv["pl"]["l"], "p": [], "t": 0}}, l, depth + 1):
                     return True
             if rv["r"] == "use" and refers_to_local(body, rv["o"], l, depth + 1):
+                return True
+    return False
+
+
+PROJECTION_CALLS = ("deref", "deref_mut", "as_mut", "as_ref", "as_deref", "as_deref_mut", "unwrap", "expect", "get_mut", "as_pin_mut", "borrow_mut", "borrow", "unwrap_unchecked", "get_or_insert_with", "index", "index_mut")
+
+
+def derives_from_local(body, op, l, depth=0, seen=None):
+    """the operand designates (part of) what local `l` holds or guards: `l` itself, a field / reborrow of it, or the
+    result of a projection-like call (`deref_mut`, `as_mut`, `unwrap`, ..) on such a value"""
+    pl = op if ("l" in op and "p" in op) else op_place(op)
+    if pl is None or depth > 12:
+        return False
+    if pl["l"] == l:
+        return True
+    seen = seen if seen is not None else set()
+    if pl["l"] in seen:
+        return False
+    seen.add(pl["l"])
+    # through copies, aggregates built and taken apart again, `?` on literal Ok/Some (Body.resolve)
+    if depth == 0:
+        own = body.resolve({"l": l, "p": []})
+        for r, p_ in body.resolve(op):
+            for r2, p2 in own:
+                if r == r2 and p2 and r[0] not in ("unknown", "infeasible", "const") and tuple(p_[: len(p2)]) == tuple(p2):
+                    return True
+    for r, p_ in body.resolve(op):
+        if r[0] == "local" and r[1] == l:
+            return True
+        if r[0] == "call":
+            cs = body.call_at(r[1])
+            if cs is None:
+                continue
+            if cs.dest["l"] == l and not cs.dest["p"]:
+                return True
+            if cs.name in PROJECTION_CALLS and cs.args and ("bb", r[1]) not in seen:
+                seen.add(("bb", r[1]))
+                if derives_from_local(body, cs.args[0], l, depth + 1, seen):
+                    return True
+    for d in body.defs().get(pl["l"], []):
+        if d[0] == "assign":
+            rv = d[3]["rv"]
+            src = rv.get("o") if rv["r"] in ("use", "cast") else rv.get("pl") if rv["r"] in ("ref", "rawptr") else None
+            if src is not None and derives_from_local(body, src, l, depth + 1, seen):
+                return True
+        elif d[0] == "call":
+            cs = body.call_at(d[1])
+            if cs is not None and cs.name in PROJECTION_CALLS and cs.args and derives_from_local(body, cs.args[0], l, depth + 1, seen):
                 return True
     return False
